@@ -8,7 +8,7 @@ B = BLOCK
 DECOYS = ["decoy_all", "decoy_some", "decoy_head", "longer", "shorter"]
 
 
-def pick(rng, P, shapes=("D2", "D3", "D4", "S1", "D2n", "DN", "DU", "D5", "DNFC", "DS", "DS", "DM")):
+def pick(rng, P, shapes=("D2", "D3", "D4", "S1", "D2n", "DN", "DU", "D5", "DNFC", "DS", "DS", "DM", "DX")):
     A = [a for a in alphabet(P) if a <= 3 * P + B + 1]
     while True:
         sh = rng.choice(shapes)
@@ -100,7 +100,7 @@ class RebuildProp(Prop):
 
     def scen(self, rng, P, v, tree_spec, cands_fn, dest_fn=None, **kw):
         sh, sizes = tree_spec
-        t = mk_tree(sh, sizes)
+        t = mk_tree(sh, sizes, nv=rng.randrange(6) if rng.random() < 0.3 and not kw.get("dest_dot") else 0)
         for fi, f in enumerate(t["files"]):
             f["cands"] = cands_fn(fi, f)
             f["dest_pre"] = dest_fn(fi, f) if dest_fn else "absent"
